@@ -153,7 +153,7 @@ CLAIMED['C02'] = {
             'maybe_check_after_insertion which validates when the policy fires; the insertion owners are clean on failure (C03 '
             'rollback dataflow), re-created vertices keep UUID and data; the plain and the statistics-reporting insertion entry '
             'points reach the same validators; no insertion function returns success after the cavity fill / hull extension '
-            'without the orientation normalisation and check; the key reported after the post-insertion repair is the one that repair handed back; a rebuilt candidate that replaces the receiver carries the configured check / repair policies and the insertion counter. Path-sensitive for literal bool flags. '
+            'without the orientation normalisation and check, and the promotion pass refuses a flat (zero-orientation) cell per cell; the key reported after the post-insertion repair is the one that repair handed back; a rebuilt candidate that replaces the receiver carries the configured check / repair policies and the insertion counter. Path-sensitive for literal bool flags. '
             'Decides that no committing path skips the net; not that the validators suffice.',
     'note': 'Trusted: rustc MIR; edges taken when number_of_cells() == 0 and is_empty() on the checked collection are '
             'cut as legitimate bypasses; Pseudomanifold + ValidationPolicy::Never has no gate by design.',
